@@ -132,15 +132,15 @@ def run_rules(R, ts):
     bound_reads = [e for e in f.all_events() if e.kind == "access" and e.node["k"] == "var" and e.node["n"] in binds and e.mode == "r"]
     R.check(okuse and len(other) == direct + len(binds) and not bound_other and len(bound_reads) == len(uses) - direct, "BATCH", "batch-is-private", "%s()" % f.name, "the batch list's address only goes to linked-list functions (%d uses)" % len(uses),
             "the batch list escapes: tasks scheduled while running could land in the current batch")
-    swaps = [e for e in f.calls("aws_linked_list_swap_contents")]
     pushes = [e for e in f.calls({"aws_linked_list_push_back", "aws_linked_list_push_front", "aws_linked_list_insert_before", "aws_linked_list_insert_after"}) if argstr(f, e.node, 0) == batch]
-    sw = [e for e in swaps if {argstr(f, e.node, 0), argstr(f, e.node, 1)} == {batch, "scheduler->asap_list"}]
+    sw = [e for e, dst, src in RU.list_take_alls(f) if dst == batch and src == "scheduler->asap_list" and e.node["callee"] != "aws_linked_list_move_all_front"]
     R.check(len(sw) == 1 and all(ev_dominates(f, sw[0], p, dom) for p in pushes), "BATCH", "run-now-first", where(f, (sw or pushes)[0]), "run-now tasks are taken first, timed tasks appended after them",
             "the run-now list is not moved into the batch before timed tasks are appended")
     R.check(all(p.node["callee"] == "aws_linked_list_push_back" for p in pushes) and len(pushes) >= 3, "BATCH", "append-only", "%s()" % f.name, "timed tasks are appended with push_back (%d sites)" % len(pushes),
             "a timed task is inserted other than at the back of the batch: time order is broken")
-    pops = [e for e in f.calls({"aws_linked_list_pop_front", "aws_linked_list_pop_back"}) if argstr(f, e.node, 0) == batch]
-    R.check(len(pops) == 1 and pops[0].node["callee"] == "aws_linked_list_pop_front", "BATCH", "consume-from-front", where(f, pops[0]) if pops else f.name, "batch consumed with pop_front",
+    pops_f = [e for e, l in RU.list_pops(f, "front") if l == batch]
+    pops = pops_f + [e for e, l in RU.list_pops(f, "back") if l == batch]
+    R.check(len(pops) == 1 and len(pops_f) == 1, "BATCH", "consume-from-front", where(f, pops[0]) if pops else f.name, "batch consumed with pop_front",
             "the batch is not consumed from the front: run order is not schedule order")
     runs = f.calls("aws_task_run")
     R.require(len(runs) == 1, "s_run_all: expected one aws_task_run call")
@@ -163,7 +163,7 @@ def run_rules(R, ts):
 
     # NEVER-EARLY
     moves = [e for e in f.calls("aws_priority_queue_pop") if argstr(f, e.node, 0) == "scheduler->timed_queue"] + \
-            [e for e in f.calls("aws_linked_list_pop_front") if argstr(f, e.node, 0) == "scheduler->timed_list"]
+            [e for e, l in RU.list_pops(f, "front") if l == "scheduler->timed_list"]
     R.require(len(moves) == 3, "s_run_all: expected 2 heap pops and 1 timed-list pop, found %d" % len(moves))
     tops = [e for e in f.calls("aws_priority_queue_top") if argstr(f, e.node, 0) == "scheduler->timed_queue"]
     now = f.params[1]["n"]
